@@ -47,6 +47,10 @@ mod world;
 
 fn main() {
     let args: Vec<String> = std::env::args().collect();
+    if args.len() >= 3 && args[1] == "--crash-sql" {
+        crash::print_sql(&args[2]);
+        std::process::exit(0);
+    }
     if args.len() >= 3 && args[1] == "--crash-child" {
         crash::child_main(&args[2]);
     }
